@@ -34,10 +34,12 @@ const (
 	sigPartialUpdatePanic     = "C07/panic/partial-document-update-with-unique-index"
 	sigJSONNullDocMissing     = "C07/rows-missing/json-condition-on-absent-path-or-null-json"
 	sigJSONRootScalarMatcher  = "C07/error-only-indexed/json-root-condition-scalar-matcher"
+	sigIlikeInfixCase         = "C07/rows-missing/ilike-infix-pattern-case"
+	sigJSONArrayDupCorrupted  = "C07/write/corrupted-index-json-array-duplicate-elements"
 )
 
 var switchSigs = []string{sigJSONNullPanic, sigAllEmptyArray, sigInDuplicates, sigNlikeNull, sigJSONPathScanErr,
-	sigOrBranch, sigInListOrder, sigDeleteDeleted, sigInUnclosed, sigBlobMatcher, sigRelNe, sigScanOrderLaterKey, sigJSONRootOnLeaves, sigCompositeArrayEmpty, sigCompositeArrayDup, sigInvertedJoinDropsConds, sigInNullUnique, sigShowDeletedOrder, sigPartialUpdate, sigPartialUpdatePanic, sigJSONNullDocMissing, sigJSONRootScalarMatcher}
+	sigOrBranch, sigInListOrder, sigDeleteDeleted, sigInUnclosed, sigBlobMatcher, sigRelNe, sigScanOrderLaterKey, sigJSONRootOnLeaves, sigCompositeArrayEmpty, sigCompositeArrayDup, sigInvertedJoinDropsConds, sigInNullUnique, sigShowDeletedOrder, sigPartialUpdate, sigPartialUpdatePanic, sigJSONNullDocMissing, sigJSONRootScalarMatcher, sigIlikeInfixCase, sigJSONArrayDupCorrupted}
 
 func pick[T any](t *rapid.T, label string, xs []T) T {
 	return xs[rapid.IntRange(0, len(xs)-1).Draw(t, label)]
@@ -144,6 +146,9 @@ func (g *gen) value(f FieldDef, nullPercent int) string {
 		if _, ok := parseJSON(v).(map[string]any); !ok {
 			v = `{"h":2,"n":"x"}`
 		}
+	}
+	if f.Kind == "json" && g.avoid(sigJSONArrayDupCorrupted) && g.hasJSONIndex() && v == `{"arr":[2,2,3]}` {
+		v = `{"h":1,"arr":[1,2]}`
 	}
 	if f.Arr && g.avoid(sigAllEmptyArray) && v == "[]" {
 		v = p.vals[0]
@@ -367,6 +372,9 @@ func (g *gen) fillCmp(leaf *F, kind, poolName string, ops []string) {
 	switch {
 	case isLike(leaf.Cmp):
 		leaf.Val = g.likePattern(kind)
+		if leaf.Cmp == "_ilike" && g.avoid(sigIlikeInfixCase) {
+			leaf.Val = strings.ToLower(leaf.Val)
+		}
 	case leaf.Cmp == "_in" || leaf.Cmp == "_nin":
 		n := pick(t, "nin", []int{0, 1, 2, 2, 3, 4})
 		for k := 0; k < n; k++ {
